@@ -565,7 +565,7 @@ func lq(s string) string { return strconv.Quote(s) }
 
 func c22GetArm(paths []c22path, err string) string {
 	if err != "" {
-		return ".opaque " + lq(err)
+		return ".opq " + lq(err)
 	}
 	allBad := true
 	for _, p := range paths {
@@ -573,7 +573,7 @@ func c22GetArm(paths []c22path, err string) string {
 			allBad = false
 		}
 		if len(p.writes) != 0 {
-			return ".opaque " + lq("Get writes a field")
+			return ".opq " + lq("Get writes a field")
 		}
 	}
 	if allBad {
@@ -593,7 +593,7 @@ func c22GetArm(paths []c22path, err string) string {
 		if f, via, ok := wrapOf(r); ok {
 			return fmt.Sprintf(".read %s %s false", lq(f), lq(via))
 		}
-		return ".opaque " + lq("Get returns "+r.String())
+		return ".opq " + lq("Get returns "+r.String())
 	}
 	if len(paths) == 2 && len(paths[0].assume) == 1 && len(paths[1].assume) == 1 && !paths[0].bad && !paths[1].bad {
 		var pn, pv *c22path
@@ -614,15 +614,15 @@ func c22GetArm(paths []c22path, err string) string {
 	for _, p := range paths {
 		d = append(d, strings.Join(p.assume, ",")+"->"+p.ret.String())
 	}
-	return ".opaque " + lq("Get paths "+strings.Join(d, " | "))
+	return ".opq " + lq("Get paths "+strings.Join(d, " | "))
 }
 
 func c22SetArm(paths []c22path, err string) string {
 	if err != "" {
-		return ".opaque " + lq(err)
+		return ".opq " + lq(err)
 	}
 	if len(paths) != 1 || len(paths[0].assume) != 0 {
-		return ".opaque " + lq("Set depends on nil tests")
+		return ".opq " + lq("Set depends on nil tests")
 	}
 	p := paths[0]
 	if p.bad {
@@ -631,9 +631,9 @@ func c22SetArm(paths []c22path, err string) string {
 	var ws []string
 	for _, w := range p.writes {
 		if w.target.k != "field" {
-			return ".opaque " + lq("Set writes "+w.target.String())
+			return ".opq " + lq("Set writes "+w.target.String())
 		}
-		kind := ".opaque " + lq(w.val.String())
+		kind := ".opq " + lq(w.val.String())
 		switch {
 		case w.val.k == "conv" && w.val.inner.k == "child":
 			kind = ".conv " + lq(w.val.c)
@@ -731,7 +731,11 @@ func c22Extract(repo, genDir string) error {
 	for i, s := range structs {
 		var fs []string
 		for _, f := range s.Fields {
-			fs = append(fs, fmt.Sprintf("⟨%s, .%s, %s⟩", lq(f.Name), f.Class, lq(f.Gty)))
+			cls := f.Class
+			if cls == "opaque" {
+				cls = "opq" // `opaque` is a Lean keyword
+			}
+			fs = append(fs, fmt.Sprintf("⟨%s, .%s, %s⟩", lq(f.Name), cls, lq(f.Gty)))
 		}
 		var im []string
 		for _, x := range s.Impls {
@@ -831,7 +835,7 @@ func c22RenderWrapper(w *c22Wrapper, funcs map[string]*ast.FuncDecl) string {
 		}
 		return "_"
 	}
-	kind := ".opaque " + lq("Size not understood")
+	kind := ".opq " + lq("Size not understood")
 	size := 0
 	nilGuard := false
 	run := func(m string, bind c22env) ([]c22path, string) {
@@ -878,7 +882,7 @@ func c22RenderWrapper(w *c22Wrapper, funcs map[string]*ast.FuncDecl) string {
 		}
 	}
 	var armsS []string
-	oorGet, oorSet := ".opaque \"\"", ".opaque \"\""
+	oorGet, oorSet := ".opq \"\"", ".opq \"\""
 	child := &c22sv{k: "child"}
 	if isList {
 		// element access: Get(0), Set(0, child), Append(child)
@@ -941,7 +945,7 @@ func c22RenderWrapper(w *c22Wrapper, funcs map[string]*ast.FuncDecl) string {
 				kind = fmt.Sprintf(".slice %s %s %s %s", lq(w.ElemTy), lq(getVia), lq(setConv), lq(appConv))
 			}
 		} else {
-			kind = ".opaque " + lq("element access not understood")
+			kind = ".opq " + lq("element access not understood")
 		}
 		oorGet, oorSet = ".bad", ".bad" // run-time index check of the Go slice
 	} else if kind == ".fixed" {
